@@ -67,8 +67,7 @@ def run(ctx):
         raise MachineryError(f"generator actions never taken: {never}")
 
     # the pinned code's known deviations break C02 at the design level too (Dev switches them on in the model)
-    dev_cfg = S.write_cfg(ctx, "SerdeMC_func.cfg", "c02_dev.cfg", MaxSlots=3, MaxGraphs=2, WithFunc='"yes"', Irvs="{11}", EmitOn="FALSE",
-                          Dev='{"quant-twice", "tensor-meta-twice", "func-input-vi-lost"}')
+    dev_cfg = S.write_cfg(ctx, "SerdeMC_dev.cfg", "c02_dev.cfg")
     dres = ctx.tlc(S.MC, dev_cfg, tag="mc-dev", timeout=900, deadlock=False, count=False, heap=S.HEAP, workers=S.TLC_WORKERS)
     ctx.extra["design_level_deviations_break_C02"] = "Holds" in dres.violated
     if "Holds" not in dres.violated:
